@@ -140,6 +140,14 @@ theorem batch_local_index_eq_global_mod (L j threads minBatch : Nat) (hz : 2 ^ j
     ∀ b ∈ cs, ∀ i, (b.1 + i) % 2 ^ j = i % 2 ^ j :=
   fun b hb i => add_mod_of_dvd (offsets_divisible L threads minBatch j hz cs h b hb) i
 
+/-- The same identity under the weaker side condition "the table is not longer than the batch size"
+(`z.len() ≤ batch_size`; nothing is needed when the slice is handed over as one batch). -/
+theorem batch_local_index_eq_global_mod_of_le_batch_size (L j threads minBatch : Nat)
+    (hz : 2 ^ j ≤ batchSize (2 ^ L) threads)
+    (cs : List (Nat × Nat)) (h : batchIterMut3 (2 ^ L) threads minBatch = some cs) :
+    ∀ b ∈ cs, ∀ i, (b.1 + i) % 2 ^ j = i % 2 ^ j :=
+  fun b hb i => add_mod_of_dvd (offsets_divisible_gen L threads minBatch j (fun _ => hz) cs h b hb) i
+
 /-- `acc_column` (transition branch, `batch_iter_mut!(result, 128, ..)`) on a slice of `2^L` elements
 with a divisor-inverse table of `2^j ≤ 128` entries: under EVERY thread count the concurrent build
 computes `term g (g % 2^j)` at every position `g` — which is what the serial build computes. -/
@@ -434,6 +442,7 @@ example : accColumnPar Prod.mk (2 ^ 1) (2 ^ 3) 4 = accColumnSerial Prod.mk (2 ^ 
   ((acc_column_thread_independent Prod.mk 3 1 4 (by decide)).1).trans
     ((acc_column_thread_independent Prod.mk 3 1 4 (by decide)).2).symm
 example : accColumnSerial Prod.mk 2 4 = some [(0, 0), (1, 1), (2, 0), (3, 1)] := by decide
+example : 2 ^ 7 ≤ batchSize (2 ^ 13) 12 ∧ ¬ 2 ^ 7 ≤ batchSize (2 ^ 10) 12 := by decide +kernel
 example : accColumn (α := Nat × Nat) Prod.mk 0 [(0, 4)] = none := by decide
 -- §4
 example : fragments 8192 4 = some [(0, 2048), (2048, 2048), (4096, 2048), (6144, 2048)] := by decide +kernel
